@@ -46,7 +46,7 @@ type hintVariant struct {
 	Step  int64
 	Func  string
 	Range int64
-	Raw   bool // the rows are the raw samples of (start, end]
+	Raw   bool // the rows are the raw samples of [start, end]
 }
 
 var hintVariants = []hintVariant{
@@ -119,7 +119,7 @@ func (e *promEnv) setup(r *rand.Rand, c *concr, db []absSeries, names []string, 
 				tsRows = append(tsRows, []any{uint8(2), e.day, fp, string(lj), ""})
 			}
 		}
-		// samples: before the range, exactly at start (excluded), just inside, middle, exactly at end (included), after
+		// samples: before the range, exactly at start (included: the select range is [start, end]), just inside, middle, exactly at end (included), after
 		offs := []int64{5000, 10000, 10001, 20500 + int64(i), 31000 + int64(7*i), 40000, 47000 + int64(i), 58123, 70000, 70001, 80000}
 		for j, o := range offs {
 			t := base + o
@@ -351,15 +351,20 @@ func selectMain(fs *flag.FlagSet, args []string) error {
 					if seen[u] > 0 {
 						continue
 					}
+					if !mechAll[u] {
+						// the label-index query itself does not select the series (a trait of the case): a matter of
+						// selection, judged below, not of the window filter
+						continue
+					}
 					var want []smp
 					for _, x := range st.Samples {
-						if x.T > env.start && x.T <= env.end {
+						if x.T >= env.start && x.T <= env.end {
 							want = append(want, x)
 						}
 					}
 					if sampleClass(hv, env, nil, want) != "" {
 						viol.add("select|prom|samples|needed-window-sample-dropped",
-							fmt.Sprintf("series %s hints %s: no samples at all, stored in (start,end]: %v", fmtLabels(st.Labels), hv.Name, want), detail(nil))
+							fmt.Sprintf("series %s hints %s: no samples at all, stored in [start,end]: %v", fmtLabels(st.Labels), hv.Name, want), detail(nil))
 					}
 					delete(exp, u)
 					delete(mech, u)
@@ -430,12 +435,12 @@ func selectMain(fs *flag.FlagSet, args []string) error {
 				done[u] = true
 				var want []smp
 				for _, x := range st.Samples {
-					if x.T > env.start && x.T <= env.end {
+					if x.T >= env.start && x.T <= env.end {
 						want = append(want, x)
 					}
 				}
 				if cl := sampleClass(hv, env, o.Samples, want); cl != "" {
-					viol.add("select|prom|samples|"+cl+sampleStoreSuffix(cl, mode), fmt.Sprintf("series %s hints %s: samples %v, stored in (start,end]: %v", fmtLabels(st.Labels), hv.Name, o.Samples, want), detail(nil))
+					viol.add("select|prom|samples|"+cl+sampleStoreSuffix(cl, mode), fmt.Sprintf("series %s hints %s: samples %v, stored in [start,end]: %v", fmtLabels(st.Labels), hv.Name, o.Samples, want), detail(nil))
 				}
 			}
 			if len(samples) < 2 && len(exp) > 0 && len(exp) < len(stored) && len(ms) > 1 && len(missing)+len(extra)+len(twice) == 0 && hv.Raw {
@@ -478,7 +483,7 @@ func modeDoc(mode string) string {
 	return "one time_series row per series"
 }
 
-// sampleClass compares the samples handed out with the stored samples of (start, end]
+// sampleClass compares the samples handed out with the stored samples of [start, end]
 func sampleClass(hv hintVariant, env *promEnv, got, want []smp) string {
 	for i := 1; i < len(got); i++ {
 		if got[i].T <= got[i-1].T {
@@ -498,7 +503,7 @@ func sampleClass(hv hintVariant, env *promEnv, got, want []smp) string {
 			}
 		}
 		for _, g := range got {
-			if g.T <= env.start || g.T > env.end {
+			if g.T < env.start || g.T > env.end {
 				return "outside-range"
 			}
 		}
@@ -518,7 +523,7 @@ func sampleClass(hv hintVariant, env *promEnv, got, want []smp) string {
 		if !wantV[g.V] {
 			return "value-of-no-stored-sample-in-range"
 		}
-		if g.T <= env.start || g.T > env.end+hv.Step {
+		if g.T < env.start || g.T > env.end+hv.Step {
 			return "outside-range"
 		}
 	}
